@@ -13,7 +13,10 @@ RULE = ("Generated conforming tetrahedral meshes (single/two tets, fans around a
         "Delaunay, 1-4 splits and cell removals; vertex renumbering, cell order and per-cell vertex permutation, orientation "
         "parity all-positive / all-negative / mixed) x neighbourhood sorting on/off x a generated query sequence on a fresh "
         "mesh + full sweep in shuffled kind order on a second fresh mesh + boundary extraction (boundary connectivity object "
-        "and standalone extractor). non-trivial = >=2 cells and >=1 interior face; distinct = distinct (cells, sort, sequence).")
+        "and standalone extractor). One base shape is a 3x3x3 block of cubes with the centre cube missing (boundary with a cavity "
+        "component). Size regime (huge): Kuhn grids with > 65536 cells but < 65536 vertices (24^3 vertices, 73002 cells) and slabs, "
+        "vertex_to_cell for every vertex, cell / face / edge tables sampled at both ends of the id range, border lists. "
+        "non-trivial = >=2 cells and >=1 interior face (huge: > 65536 cells or vertices); distinct = distinct (cells, sort, sequence).")
 ASSUMPTIONS = ["cells are tetrahedra forming a conforming complex whose boundary is a manifold surface",
                "'positively oriented' = det(pA-pD,pB-pD,pC-pD) > 0 for a cell (A,B,C,D), the library's own signed volume"]
 
@@ -34,7 +37,9 @@ def case_strategy(draw, max_cells=40):
             # how the mesh object under test is produced: directly, or written to a file and loaded back ("however a mesh is built")
             "via": draw(st.sampled_from([None, None, None, "tet", "mesh", "geogram_ascii"])),
             "prequery_before_save": draw(st.booleans()),
-            "scale": draw(st.sampled_from([1.0, 1.0, 1.0, 1e-6, 1e-3, 1e3, 1e6]))}
+            "scale": draw(st.sampled_from([1.0, 1.0, 1.0, 1e-6, 1e-3, 1e3, 1e6])),
+            "pre_border": draw(st.sampled_from([None, None, None, "bool", "bool", "int"])), "pre_border_seed": draw(st.integers(0, 1000)),
+            "dup_warn": draw(st.integers(0, 3)) == 0}
 
 
 def rot_ok_cells(seq, ref, ek, closed):
@@ -281,6 +286,22 @@ def info_border_edges(ref):
 
 
 def build(case):
+    import mouette as M
+    M.config.display_duplicate_attribute_warning = bool(case.get("dup_warn", False))
+    m = _build(case)
+    if case.get("pre_border"):
+        # attributes called "border" (the name the mesh uses for its own flags) already on the vertices / edges, arbitrary flags
+        rnd = random.Random(case.get("pre_border_seed", 0))
+        typ = bool if case["pre_border"] == "bool" else int
+        for cont in (m.vertices, m.edges):
+            a = cont.create_attribute("border", typ, dense=bool(rnd.randrange(2)))
+            for i in range(len(cont)):
+                if rnd.randrange(2):
+                    a[i] = typ(1)
+    return m
+
+
+def _build(case):
     import mouette as M, os, tempfile, shutil
     M.config.sort_neighborhoods = bool(case["sort"])
     m = volume_from(case["V"], case["C"], case.get("form", "list"))
@@ -351,6 +372,8 @@ def fn(case, ctx):
     for t in case.get("tags", []):
         ctx.label(t)
     ctx.label("sort=" + str(case["sort"]), "via=" + str(case.get("via")), "ids=" + ("numpy" if case.get("np_ids") else "int"), "form=" + case.get("form", "list"))
+    if case.get("pre_border"): ctx.label("pre-existing-border-attributes=" + case["pre_border"])
+    if case.get("dup_warn"): ctx.label("duplicate-attribute-switch-on")
     ctx.label("first=" + case["queries"][0][0])
     ctx.nontrivial(len(Cl) >= 2 and any(len(cs) == 2 for cs in ref.f2c.values()))
 
@@ -483,5 +506,89 @@ def fn(case, ctx):
                       "boundary:enable-after-extract", "boundary_mesh built after a standalone extraction is not made of the border faces")
 
 
-SUBCHECKS = [SubCheck("volume_queries", case_strategy(), fn, quick=600, thorough=1500)]
+# ----------------------------------------------------------------------------- size regime: ids and counts beyond 2**16
+@st.composite
+def huge_case(draw):
+    # a Kuhn grid with fewer than 65536 vertices and more than 65536 cells (24^3 vertices, 73002 cells), or a slab with more
+    # than 65536 vertices; a fixed recipe realised in fn (the case stays small)
+    return {"dims": draw(st.sampled_from([[23, 23, 23], [23, 23, 23], [40, 40, 7], [110, 100, 1]])), "sort": draw(st.booleans()),
+            "reverse_cells": draw(st.booleans()), "seed": draw(st.integers(0, 10 ** 6))}
+
+
+def fn_huge(case, ctx):
+    import mouette as M
+    M.config.sort_neighborhoods = bool(case["sort"])
+    a, b, c = case["dims"]
+    V, C = GT.kuhn(a, b, c)
+    if case["reverse_cells"]:
+        C = C[::-1]
+    ref = TetRef(len(V), C)
+    ctx.label(f"cells>{2 ** 16}" if len(C) > 2 ** 16 else "cells<=65536", f"vertices>{2 ** 16}" if len(V) > 2 ** 16 else "vertices<=65536")
+    ctx.nontrivial(len(C) > 2 ** 16 or len(V) > 2 ** 16)
+    m = volume_from(V, C)
+    K = m.connectivity
+    rnd = random.Random(case["seed"])
+    nV, nC = len(V), len(C)
+    v2c = {}
+    for ic, cell in enumerate(ref.C):
+        for v in cell:
+            v2c.setdefault(v, set()).add(ic)
+    for v in range(nV):
+        ok, r = ctx.call("huge:vertex_to_cell", K.vertex_to_cell, v)
+        if ok and not ctx.check(sorted(ints(r)) == sorted(v2c.get(v, ())), "huge:vertex_to_cell",
+                                f"{a}x{b}x{c} Kuhn grid ({nV} vertices, {nC} cells): vertex_to_cell({v}) = {sorted(ints(r))[:8]}.., expected {sorted(v2c.get(v, ()))[:8]}.."):
+            return
+    cells = sorted(set(list(range(min(nC, 60))) + list(range(max(0, nC - 400), nC)) + [rnd.randrange(nC) for _ in range(400)]))
+    fkeys = list(ref.f2c.keys())
+    for ic in cells:
+        ok, r = ctx.call("huge:cell_to_cell", K.cell_to_cell, ic)
+        if ok:
+            cset = set(ref.C[ic])
+            exp = sorted(set(j for v in ref.C[ic] for j in v2c[v] if j != ic and len(cset & set(ref.C[j])) == 3))
+            if not ctx.check(sorted(ints(r)) == exp, "huge:cell_to_cell", f"{nC} cells: cell_to_cell({ic}) = {sorted(ints(r))}, expected {exp}"):
+                return
+        ok, r = ctx.call("huge:cell_to_face", K.cell_to_face, ic)
+        if ok:
+            fl = ints(r)
+            good = len(fl) == 4 and all(0 <= f < len(m.faces) for f in fl)
+            if good:
+                for i, f in enumerate(fl):
+                    good = good and set(ints(m.faces[f])) == set(ref.C[ic]) - {ref.C[ic][i]}
+            if not ctx.check(good, "huge:cell_to_face", f"{nC} cells: cell_to_face({ic}) = {fl}: the i-th face is not the one opposite the i-th vertex"):
+                return
+    nF = len(m.faces)
+    ctx.check(nF == len(ref.f2c), "huge:faces", f"{nF} faces, expected {len(ref.f2c)}")
+    for f in sorted(set(list(range(min(nF, 50))) + list(range(max(0, nF - 400), nF)) + [rnd.randrange(nF) for _ in range(300)])):
+        ok, r = ctx.call("huge:face_to_cells", K.face_to_cells, f)
+        if ok:
+            exp = sorted(ref.f2c[key(ints(m.faces[f]))])
+            got = sorted(ints(r))
+            if not ctx.check(got == exp, "huge:face_to_cells", f"{nF} faces: face_to_cells({f}) = {r}, expected {exp}"):
+                return
+    bf = ref.border_faces()
+    ok, lst = ctx.call("huge:boundary_faces", lambda: m.boundary_faces)
+    if ok:
+        ctx.check(set(key(ints(m.faces[f])) for f in ints(lst)) == bf and len(lst) == len(bf), "huge:border_faces",
+                  f"boundary_faces lists {len(lst)} faces, expected {len(bf)}")
+    bv = ref.border_vertices()
+    ok, lst = ctx.call("huge:boundary_vertices", lambda: m.boundary_vertices)
+    if ok:
+        ctx.check(set(ints(lst)) == bv and len(lst) == len(bv), "huge:border_vertices", f"boundary_vertices lists {len(lst)} vertices, expected {len(bv)}")
+    ne = len(m.edges)
+    ctx.check(set(tuple(ints(e)) for e in m.edges) == ref.ekeys and ne == len(ref.ekeys), "huge:edges", f"{ne} edges, expected {len(ref.ekeys)}")
+    medges = [tuple(ints(e)) for e in m.edges]
+    for e in sorted(set(list(range(min(ne, 50))) + list(range(max(0, ne - 400), ne)) + [rnd.randrange(ne) for _ in range(300)])):
+        u, v = medges[e]
+        ok, r = ctx.call("huge:edge_id", K.edge_id, u, v)
+        if ok and not ctx.check(r == e, "huge:edge_id", f"{ne} edges: edge_id({u},{v}) = {r!r}, expected {e}"):
+            return
+        ok, r = ctx.call("huge:edge_to_cell", K.edge_to_cell, e)
+        if ok:
+            exp = sorted(j for j in v2c[u] & v2c[v])
+            if not ctx.check(sorted(ints(r)) == exp, "huge:edge_to_cell", f"edge_to_cell({u},{v}) = {sorted(ints(r))}, expected {exp}"):
+                return
+
+
+SUBCHECKS = [SubCheck("volume_queries", case_strategy(), fn, quick=600, thorough=1500),
+             SubCheck("huge", huge_case(), fn_huge, quick=1, thorough=1, watchdog=(300, 600))]
 MATCHERS = {}
